@@ -173,6 +173,10 @@ def run_batch(engine, tier, hs, stats, known, max_examples, deadline, shrink_s=6
         # made explicit) that reproduces the violation on its own
         failure['plan'] = v.pop('replan', None) or plan
         failure['violation'] = v
+        if 'first_plan' not in failure:
+            # the plan as it was found, before any minimisation
+            failure['first_plan'] = failure['plan']
+            failure['first_violation'] = v
         raise Violation(failure['target'])
 
     try:
@@ -433,6 +437,24 @@ def run_check(engine_name, tier, seed_, nworkers=None):
         body['confirmed_fresh_same_hashseed'] = bool(same)
         with open(path, 'w') as f:
             json.dump(body, f, indent=1, default=str)
+        if not same and fl.get('first_plan') is not None and fl['first_plan'] != fl['plan']:
+            # the minimised plan does not replay in a fresh interpreter; the plan as it
+            # was found may (a defect that depends on how much happened - addresses
+            # re-used, counters saturating - can sit right at the edge after shrinking)
+            fl2 = dict(fl, plan=fl['first_plan'], violation=fl.get('first_violation') or fl['violation'])
+            path2 = write_replay(engine, seed_, fl2)
+            ok = confirm_fresh(path2)
+            same = ok or confirm_fresh(path2, '0')
+            if same:
+                with open(path2) as f:
+                    body = json.load(f)
+                body['confirmed_fresh'] = ok
+                body['confirmed_fresh_same_hashseed'] = True
+                body['note'] = ('unminimised: the minimised plan ({}) did not replay in a fresh '
+                                'interpreter'.format(os.path.basename(path)))
+                with open(path2, 'w') as f:
+                    json.dump(body, f, indent=1, default=str)
+                path, fl = path2, fl2
         if not same:
             # found once, not reproducible from its replay file: the machinery is
             # at fault (a source of nondeterminism it does not own) - no verdict
